@@ -271,7 +271,8 @@ func c05Unit(c *RunCtx, unit int) {
 		mods = append(mods, "register")
 	}
 	cfg := world.Cfg{Modules: shuffled(r, mods), Mount: pickS(r, "/auth", ""), JSON: r.Intn(3) == 0, RecoverLogin: r.Intn(2) == 0,
-		RecoverTTL: pickD(r, 24*time.Hour, 10*time.Minute, 3*time.Second), Secondary: r.Intn(3) == 0, Err500: r.Intn(2) == 0, LogoutMethod: "DELETE"}
+		RecoverTTL: pickD(r, 24*time.Hour, 10*time.Minute, 3*time.Second), Secondary: r.Intn(3) == 0, Err500: r.Intn(2) == 0, LogoutMethod: "DELETE",
+		StoreTZ: []int{0, 13 * 3600, -11 * 3600, 5*3600 + 1800}[r.Intn(4)]}
 	s, err := sim.New(cfg, r, sim.SeedOpt{Accounts: 3, Browsers: 2, Unconfirmed: 0.5})
 	if err != nil {
 		c.Stats.Inconclusive = append(c.Stats.Inconclusive, "world: "+err.Error())
@@ -427,7 +428,7 @@ func head(h []string, n int) []string {
 func init() {
 	register(&Check{
 		ID: "C05", Level: "exploration",
-		Rule:  "per unit: 3 accounts, each issued a confirmation and a recovery token (some re-issued, superseding the first); per genuine token ~560 hostile submissions: all 512 single-bit flips of its 64 bytes, truncations to 0/1/31/32/63 bytes, extensions, broken/unpadded base64, selector/verifier splices with other accounts' tokens in both directions, every value recombined from the halves of any two mailed tokens (all ordered pairs, all four half combinations, both endpoints — must be nobody's token), the other kind's token, the stored selector/verifier strings and their bytes, random bytes, superseded tokens; then the genuine token with a weak password (nothing may change), then the genuine token — in a different base64 spelling of the same bytes in 2/3 of the cases, at age 0 / ttl-1ns / ttl+1ns / 10*ttl — then replays from two browsers. Oracle per submission: accept iff decoded bytes equal a live token of that kind (and unexpired, password valid & hashable); accept must touch exactly that account's fields; reject must leave storage byte-identical. distinct_nontrivial = distinct (kind, mutation class, ledger verdict, mode, status) signatures.",
+		Rule:  "per unit: 3 accounts, each issued a confirmation and a recovery token (some re-issued, superseding the first); per genuine token ~560 hostile submissions: all 512 single-bit flips of its 64 bytes, truncations to 0/1/31/32/63 bytes, extensions, broken/unpadded base64, selector/verifier splices with other accounts' tokens in both directions, every value recombined from the halves of any two mailed tokens (all ordered pairs, all four half combinations, both endpoints — must be nobody's token), the other kind's token, the stored selector/verifier strings and their bytes, random bytes, superseded tokens; then the genuine token with a weak password (nothing may change), then the genuine token — in a different base64 spelling of the same bytes in 2/3 of the cases, at age 0 / ttl-1ns / ttl+1ns / 10*ttl, with a storer that hands timestamps back in UTC or in a zone 13 h east / 11 h west / 5.5 h east of it — then replays from two browsers. Oracle per submission: accept iff decoded bytes equal a live token of that kind (and unexpired, password valid & hashable); accept must touch exactly that account's fields; reject must leave storage byte-identical. distinct_nontrivial = distinct (kind, mutation class, ledger verdict, mode, status) signatures.",
 		Units: func(t string) int { return tierN(t, 48, 2000) },
 		Run:   c05Unit,
 		Floors: func(t string) map[string]int {
